@@ -281,7 +281,7 @@ func invariant(d *ring.Desc) string {
 	return ""
 }
 
-type rings struct{ plain, zoned *ring.Ring }
+type rings struct{ plain, zoned, longLived, fresh *ring.Ring }
 
 var ringPool = sync.Pool{New: func() any {
 	mk := func(za bool) *ring.Ring {
@@ -292,7 +292,7 @@ var ringPool = sync.Pool{New: func() any {
 		}
 		return r
 	}
-	return &rings{mk(false), mk(true)}
+	return &rings{mk(false), mk(true), mk(false), mk(false)}
 }}
 
 // queryRing feeds the state to real ring clients as a reader would see it and runs lookups.
@@ -349,6 +349,37 @@ func queryRing(d *ring.Desc) (queries int, bad string) {
 	return
 }
 
+// readerView is what the gossip store hands to a watcher: a clone (sharing token arrays) without tombstones.
+func readerView(d *ring.Desc) *ring.Desc {
+	v := d.Clone().(*ring.Desc)
+	v.RemoveTombstones(time.Time{})
+	return v
+}
+
+// lookups is a compact answer vector of a ring client (owners per boundary key, token ranges).
+func lookups(r *ring.Ring, ids []string) []string {
+	var out []string
+	for _, k := range []uint32{0, 1, 2, M - 1, M} {
+		for _, o := range []ring.Operation{ring.Write, ring.Reporting} {
+			rs, err := r.Get(k, o, nil, nil, nil)
+			var owners []string
+			for _, in := range rs.Instances {
+				owners = append(owners, in.Id)
+			}
+			sort.Strings(owners)
+			out = append(out, fmt.Sprintf("Get(%d,%d)=%v,%v", k, o, owners, err != nil))
+		}
+	}
+	for _, id := range ids {
+		tr, err := r.GetTokenRangesForInstance(id)
+		out = append(out, fmt.Sprintf("ranges(%s)=%v,%v", id, tr, err != nil))
+	}
+	sub := r.ShuffleShard("tenant", 1)
+	rs, err := sub.Get(1, ring.Write, nil, nil, nil)
+	out = append(out, fmt.Sprintf("shard.Get=%d,%v", len(rs.Instances), err != nil))
+	return out
+}
+
 type node struct {
 	hist []int // op indexes
 	m    model
@@ -363,7 +394,7 @@ func TestC05(t *testing.T) {
 	}
 	ops := alphabet(ids)
 	rep.Bound = fmt.Sprintf("ids %v, token space {0,1,2^32-1}, %d operations (gossip merges of 1- and 2-entry descriptors in 5 states × 3 timestamps × 10 raw token lists incl. unsorted/duplicated; local-CAS put/remove through Merge(…,true)), BFS depth %d from the empty ring, every state reached by replaying real merges on a fresh descriptor", ids, len(ops), depth)
-	rep.Rule = "in every reachable state: tokens sorted/unique, LEFT holds none, no token in two non-LEFT entries, real merge result ≡ reference (per-entry LWW + collision rule: non-LEAVING beats LEAVING, else smaller id), and a real ring client fed the state answers Get/ShuffleShard/lookback/token-range/replication-set queries without ErrInconsistentTokensInfo or panic; distinct_nontrivial = distinct reachable states in whose last step at least one token collision was resolved"
+	rep.Rule = "in every reachable state: tokens sorted/unique, LEFT holds none, no token in two non-LEFT entries, real merge result ≡ reference (per-entry LWW + collision rule: non-LEAVING beats LEAVING, else smaller id), and a real ring client fed the state answers Get/ShuffleShard/lookback/token-range/replication-set queries without ErrInconsistentTokensInfo or panic; a long-lived ring client fed a clone of the replica after every merge (as the gossip store feeds its watchers) answers like a client built from the final state alone; distinct_nontrivial = distinct reachable states in whose last step at least one token collision was resolved"
 	deadline := ev.Deadline(10 * time.Minute)
 	enum.Frozen(t, func() {
 		now := time.Now().Unix()
@@ -375,14 +406,20 @@ func TestC05(t *testing.T) {
 			total := len(frontier) * len(ops)
 			ok := enum.Par(total, deadline, func() bool { return rep.NumViolations() >= 20 }, func(ix int) {
 				nd, oi := frontier[ix/len(ops)], ix%len(ops)
-				// replay on a fresh real descriptor
+				// replay on a fresh real descriptor; a long-lived ring client watches the replica the way a client of the
+				// gossip store does (a clone of the stored value after every change)
+				rs := ringPool.Get().(*rings)
+				defer ringPool.Put(rs)
+				rs.longLived.VerifUpdateRingState(ring.NewDesc())
 				d := ring.NewDesc()
 				for _, h := range nd.hist {
 					if err := applyReal(d, ops[h], now); err != nil {
 						panic(err)
 					}
+					rs.longLived.VerifUpdateRingState(readerView(d))
 				}
 				err := applyReal(d, ops[oi], now)
+				rs.longLived.VerifUpdateRingState(readerView(d))
 				want, collisions := nd.m.apply(ops[oi], now)
 				rep.Trans(1)
 				rep.Eval(int64(len(nd.hist) + 1))
@@ -405,6 +442,22 @@ func TestC05(t *testing.T) {
 				if got != want.canon(now) {
 					rep.Violate("rule:"+histStr(), fmt.Sprintf("after %s: real state %s, reference (LWW + collision rule) %s", histStr(), got, want.canon(now)), map[string]any{"history": histStr()})
 					return
+				}
+				// the watching client must answer like a client built from the final state alone
+				rs.fresh.VerifUpdateRingState(ring.NewDesc())
+				fv := readerView(d)
+				for id, in := range fv.Ingesters { // the fresh client gets its own token arrays
+					in.Tokens = append([]uint32(nil), in.Tokens...)
+					fv.Ingesters[id] = in
+				}
+				rs.fresh.VerifUpdateRingState(fv)
+				la, fa := lookups(rs.longLived, ids), lookups(rs.fresh, ids)
+				rep.Eval(int64(len(la)))
+				for i := range la {
+					if la[i] != fa[i] {
+						rep.Violate("watcher:"+histStr(), fmt.Sprintf("after %s a ring client that watched the replica all along answers %s, a client built from the final state %s answers %s", histStr(), la[i], got, fa[i]), map[string]any{"history": histStr()})
+						break
+					}
 				}
 				mu.Lock()
 				isNew := !seen[got]
